@@ -15,6 +15,7 @@ covered by the metamorphic search on the implementation.
 import TelProofs.OrderIndep
 import TelProofs.Tseitin
 import TelProofs.TodoProofs
+import TelProofs.StepDataProofs
 
 namespace TelProofs.C12
 open TelSpec TelModel TelProofs
@@ -77,5 +78,15 @@ theorem todo_request_order_independent (ks ks' : List TodoKey) (h : ∀ x, x ∈
   todo_set_independent ks ks' h
 
 example : todoAfter [(1, "a"), (0, "(a&b)"), (1, "a"), (1, "b"), (0, "(a&b)")] = [(1, "a"), (0, "(a&b)"), (1, "b")] := by decide
+
+/-- The program literal that stands for a (formula, step) pair does not depend on the order or multiplicity in which the
+    occurrences of the theory atom are met (statement order, duplicates, file layout decide the order of `prg.theory_atoms`):
+    `StepData.add_literal` takes the smallest registered literal (model `StepData`, tied to the real methods in the check of C03). -/
+theorem representative_order_independent (as bs : List Int) (fresh : Int) (hm : ∀ x, x ∈ as ↔ x ∈ bs) :
+    (StepData.run {} (SD.regs as ++ [.translate (.own fresh)])).1.literal =
+    (StepData.run {} (SD.regs bs ++ [.translate (.own fresh)])).1.literal :=
+  SD.representative_order_independent as bs fresh hm
+
+example : (StepData.run {} (SD.regs [7, 3, 7, 5] ++ [.translate (.own 9)])).1.literal = some 3 := by decide
 
 end TelProofs.C12
